@@ -100,9 +100,83 @@ func pickSubnets(r *rand.Rand) []string {
 	return out
 }
 
+// GenSharedConf: pools sharing ONE pod subnet and gateway (the sort by gateway keeps their configuration order), in any
+// configuration order — the pool with the higher addresses first as often as not —, with adjacent and interleaved ranges
+// across the pools; optionally one ordinary pool in another subnet.
+func GenSharedConf(r *rand.Rand) Conf {
+	base := uint32(10<<24 | 20<<16)
+	gw := IPStr(base + 1)
+	layouts := [][][][2]uint32{
+		{{{6, 10}}, {{2, 5}}},                         // adjacent, higher first
+		{{{2, 5}}, {{6, 10}}},                         // adjacent, ascending
+		{{{8, 9}, {14, 15}}, {{2, 3}, {11, 12}}},      // interleaved
+		{{{12, 14}}, {{2, 4}}, {{6, 9}}},              // three pools, gaps
+		{{{5, 6}, {20, 22}}, {{8, 18}}},               // one pool inside the gap of the other
+		{{{10, 13}}, {{4, 9}}, {{2, 3}, {14, 16}}},    // adjacent on both sides
+	}
+	l := layouts[r.Intn(len(layouts))]
+	order := r.Perm(len(l))
+	subs := pickSubnets(r)
+	var c Conf
+	for _, i := range order {
+		var rs [][2]uint32
+		for _, x := range l[i] {
+			rs = append(rs, [2]uint32{base + x[0], base + x[1]})
+		}
+		ns := subs
+		if r.Intn(4) == 0 {
+			ns = pickSubnets(r)
+		}
+		c = append(c, PoolConf{NodeSubnets: ns, IPs: ipsOfRanges(rs), Subnet: IPStr(base) + "/24", Gateway: gw})
+	}
+	if r.Intn(3) == 0 {
+		pn := podNets[r.Intn(len(podNets))]
+		c = append(c, PoolConf{NodeSubnets: pickSubnets(r), IPs: ipsOfRanges(rangesIn(r, pn.base+2, hostMax(pn)-1, false)),
+			Subnet: fmt.Sprintf("%s/%d", IPStr(pn.base), pn.bits), Gateway: IPStr(pn.base + 1)})
+		if r.Intn(2) == 0 {
+			c[0], c[len(c)-1] = c[len(c)-1], c[0]
+		}
+	}
+	return c
+}
+
+// GenSpanRanges draws k pairwise-disjoint range lists each consisting of ONE range which spans configured ranges of
+// several pools partially (and the unconfigured gaps between them).
+func (v View) GenSpanRanges(r *rand.Rand, k int) [][][2]uint32 {
+	all := v.allIPs()
+	if len(all) == 0 {
+		return nil
+	}
+	sort.Slice(all, func(i, j int) bool { return all[i] < all[j] })
+	lo, hi := uint64(all[0]), uint64(all[len(all)-1])
+	if lo > 1 {
+		lo--
+	}
+	hi++
+	// k+… cut points
+	cuts := map[uint64]bool{}
+	for len(cuts) < 2*k && uint64(len(cuts)) < hi-lo {
+		cuts[lo+uint64(r.Int63n(int64(hi-lo+1)))] = true
+	}
+	var cs []uint64
+	for c := range cuts {
+		cs = append(cs, c)
+	}
+	sort.Slice(cs, func(i, j int) bool { return cs[i] < cs[j] })
+	var out [][][2]uint32
+	for i := 0; i+1 < len(cs) && len(out) < k; i += 2 {
+		out = append(out, [][2]uint32{{uint32(cs[i]), uint32(cs[i+1])}})
+	}
+	r.Shuffle(len(out), func(i, j int) { out[i], out[j] = out[j], out[i] })
+	return out
+}
+
 // GenConf draws a valid configuration: 1–5 pools, pairwise disjoint as address sets, node subnets shared between
 // pools, /32 node subnets, pools sharing one pod subnet (same gateway) with disjoint ranges, boundary addresses.
 func GenConf(r *rand.Rand) Conf {
+	if r.Intn(6) == 0 {
+		return GenSharedConf(r)
+	}
 	var c Conf
 	n := 1 + r.Intn(5)
 	nets := r.Perm(len(podNets))
@@ -361,7 +435,11 @@ func GenOp(r *rand.Rand, v View, faultPct int) Op {
 	case x < 36:
 		op.Kind, op.Key, op.Subnet = "arng", pick(r, keyPalette), pick(r, v.subnets())
 		k := r.Intn(4)
-		op.Ranges = v.GenRanges(r, k)
+		if r.Intn(4) == 0 {
+			op.Ranges = v.GenSpanRanges(r, k)
+		} else {
+			op.Ranges = v.GenRanges(r, k)
+		}
 	case x < 44:
 		op.Kind, op.Key, op.IP = "aspec", pick(r, keyPalette), v.anyIP(r)
 	case x < 50:
@@ -423,8 +501,10 @@ func GenOp(r *rand.Rand, v View, faultPct int) Op {
 				break
 			}
 		}
-	case x < 98:
+	case x < 97:
 		op = Op{Kind: "deliver", Plan: NoPlan()}
+	case x < 99:
+		op = Op{Kind: "isync", Plan: NoPlan()}
 	default:
 		op = Op{Kind: "restart", Plan: NoPlan()}
 	}
@@ -443,10 +523,16 @@ func GenQuery(r *rand.Rand, v View) Query {
 	case 3:
 		return Query{Kind: "first", Arg: pick(r, keyPalette)}
 	case 4:
+		if r.Intn(3) == 0 {
+			return Query{Kind: "bykr", Arg: pick(r, keyPalette), Ranges: v.GenSpanRanges(r, 1+r.Intn(2))}
+		}
 		return Query{Kind: "bykr", Arg: pick(r, keyPalette), Ranges: v.GenRanges(r, r.Intn(3))}
 	case 5:
 		ips := []uint32{10<<24 | 0<<16 | 1<<8 | 7, 10<<24 | 180<<16 | 1<<8 | 2, 10<<24 | 49<<16 | 28<<8 | 9, 192<<24 | 168<<16 | 3<<8 | 4, 8<<24 | 8<<16 | 8<<8 | 8}
 		return Query{Kind: "nodesubnet", IP: ips[r.Intn(len(ips))]}
+	}
+	if r.Intn(3) == 0 {
+		return Query{Kind: "nsbr", Ranges: v.GenSpanRanges(r, 1+r.Intn(2))}
 	}
 	return Query{Kind: "nsbr", Ranges: v.GenRanges(r, r.Intn(4))}
 }
